@@ -317,6 +317,12 @@ func (x *Exec) staticModifies(f *ssa.Function, fc *FuncContract, m Expr, frame *
 			}
 		}
 		frame.All = true
+	case *EIndex:
+		if id, ok := e.X.(*EIdent); ok {
+			frame.Names["GV$"+id.Name] = true
+			return
+		}
+		frame.All = true
 	default:
 		frame.All = true
 	}
@@ -631,6 +637,17 @@ func (x *Exec) applyContract(st *State, in ssa.Instruction, fc *FuncContract, f 
 			vars["result"] = tv
 		}
 	}
+	for _, name := range fc.Allocates {
+		if tv, ok := vars[name]; ok {
+			r := x.toTerm(st, tv.V, tv.T)
+			if r.Sort == SIface {
+				r = ival(r)
+			}
+			st.assume(And(Gt(r, IntLit(0)), Not(Select(st.alloc, r))), "result "+name+" of "+shortName+" is freshly allocated")
+			st.alloc = x.define(st, "alloc", Store(st.alloc, r, True))
+			x.fresh[r.String()] = true
+		}
+	}
 	for _, c := range fc.Ensures {
 		ctx := mk(st)
 		t := x.evalClauseAt(ctx, c)
@@ -724,6 +741,26 @@ func (x *Exec) havocModifies(st *State, ctx *EvalCtx, m Expr) {
 			return
 		}
 		ctx.fail("cannot havoc %s", e.Name)
+	case *EIndex:
+		id, ok := e.X.(*EIdent)
+		if !ok {
+			ctx.fail("modifies a[i]: a must be a ghost array")
+		}
+		cur := ctx.termOf(ctx.eval(id))
+		idx := ctx.termOf(ctx.eval(e.I))
+		_, es, isArr := arrayParts(cur.Sort)
+		if !isArr {
+			ctx.fail("modifies a[i]: a must be a ghost array")
+		}
+		name := "GV$" + id.Name
+		// current value in the post state (st), index evaluated in the pre state
+		now := cur
+		if t, ok := st.heap[name]; ok {
+			now = t
+		}
+		heapSorts[name] = cur.Sort
+		st.heap[name] = x.define(st, name, Store(now, idx, x.freshConst(st, "mod."+id.Name, es)))
+		return
 	case *ECall:
 		if e.Fun == "heap" {
 			x.havocHeap(st, e.Args[0].(*EStr).V)
@@ -743,6 +780,19 @@ func (x *Exec) havocModifies(st *State, ctx *EvalCtx, m Expr) {
 
 // checkFrame: a declared modifies clause is checked at return.
 func (x *Exec) checkFrame(st *State) {
+	for _, g := range x.frameGoals(st, nil) {
+		x.oblige(st, "frame", g.name, g.goal, "modifies "+strings.TrimSpace(x.fc.ModText))
+	}
+}
+
+type frameGoal struct {
+	name string
+	goal *Term
+}
+
+// frameGoals: for every heap array that differs from its entry value, "objects allocated at entry and not listed in the
+// modifies clause are unchanged". With `only` set, goals are produced for exactly those arrays (loop frame invariants).
+func (x *Exec) frameGoals(st *State, only map[string]bool) (out []frameGoal) {
 	fc := x.fc
 	if fc == nil || !fc.ModDeclared || fc.Trusted {
 		return
@@ -795,6 +845,10 @@ func (x *Exec) checkFrame(st *State) {
 					}
 				}
 				whole["GV$"+e.Name] = true
+			case *EIndex:
+				if id, ok := e.X.(*EIdent); ok {
+					allowed["GV$"+id.Name] = append(allowed["GV$"+id.Name], ctx.termOf(ctx.eval(e.I)))
+				}
 			case *ECall:
 				if e.Fun == "heap" {
 					whole[e.Args[0].(*EStr).V] = true
@@ -810,7 +864,9 @@ func (x *Exec) checkFrame(st *State) {
 	}
 	names := make([]string, 0, len(st.heap))
 	for n := range st.heap {
-		names = append(names, n)
+		if only == nil || only[n] {
+			names = append(names, n)
+		}
 	}
 	sort.Strings(names)
 	for _, n := range names {
@@ -830,7 +886,7 @@ func (x *Exec) checkFrame(st *State) {
 			continue
 		}
 		if !isArr || k != SInt {
-			x.oblige(st, "frame", n, Eq(cur, pre), "modifies "+fc.ModText)
+			out = append(out, frameGoal{n, Eq(cur, pre)})
 			continue
 		}
 		_ = es
@@ -842,8 +898,9 @@ func (x *Exec) checkFrame(st *State) {
 		// only objects allocated at entry count (fresh objects are invisible to the caller)
 		cond := And(append(notAllowed, Select(Const("alloc@pre", ArraySort(SInt, SBool)), r))...)
 		goal := Forall([]BVar{{"r!f", SInt}}, Implies(cond, Eq(Select(cur, r), Select(pre, r))))
-		x.oblige(st, "frame", n, goal, "modifies "+strings.TrimSpace(fc.ModText))
+		out = append(out, frameGoal{n, goal})
 	}
+	return out
 }
 
 // ---------------------------------------------------------------------------
@@ -1107,7 +1164,7 @@ func isValueType(t types.Type) bool {
 // functionalResult: a pure function of value-typed arguments returns the same results for the same arguments;
 // its results are applications of per-function result symbols.
 func (x *Exec) functionalResult(st *State, fc *FuncContract, ptypes []types.Type, args []Value, resT types.Type) Value {
-	if !fc.Pure || len(args) != len(ptypes) {
+	if !fc.Pure || len(args) != len(ptypes) || len(fc.Allocates) > 0 {
 		return nil
 	}
 	for _, t := range ptypes {
